@@ -390,8 +390,10 @@ Operate(vs0, op, m, cnt, reg, keys) ==
            r1 == IF r1a > r2a THEN r2a ELSE r1a
            r2 == IF r1a > r2a THEN r1a ELSE r2a
            o1c == IF swp THEN o2a ELSE o1b
-           o2c == IF swp THEN o1b ELSE o2a
+           o2d == IF swp THEN o1b ELSE o2a
            o1 == Noeol(FL(vs, r1), o1c)
+           \* a region never takes the newline of its last line (a stale mark column, ^ on a blank line)
+           o2c == IF ~ln /\ o2d > Eol(FL(vs, r2)) THEN Eol(FL(vs, r2)) ELSE o2d
            o2 == IF ~ln /\ m.k \in Inclusive /\ o2c < Eol(FL(vs, r2)) THEN Noeol(FL(vs, r2), o2c) + 1 ELSE o2c
            text == RegionText(vs, r1, IF ln THEN 0 ELSE o1, r2, IF ln THEN -1 ELSE o2)
        IN
